@@ -69,12 +69,6 @@ type z =
 
 module Nat =
  struct
-  (** val pred : nat -> nat **)
-
-  let pred n0 = match n0 with
-  | O -> n0
-  | S u -> u
-
   (** val eqb : nat -> nat -> bool **)
 
   let rec eqb n0 m =
@@ -85,20 +79,6 @@ module Nat =
     | S n' -> (match m with
                | O -> false
                | S m' -> eqb n' m')
-
-  (** val leb : nat -> nat -> bool **)
-
-  let rec leb n0 m =
-    match n0 with
-    | O -> true
-    | S n' -> (match m with
-               | O -> false
-               | S m' -> leb n' m')
-
-  (** val ltb : nat -> nat -> bool **)
-
-  let ltb n0 m =
-    leb (S n0) m
 
   (** val max : nat -> nat -> nat **)
 
@@ -339,19 +319,6 @@ module Coq_Pos =
   let ggcd a b =
     ggcdn (Coq__1.add (size_nat a) (size_nat b)) a b
 
-  (** val iter_op : ('a1 -> 'a1 -> 'a1) -> positive -> 'a1 -> 'a1 **)
-
-  let rec iter_op op0 p a =
-    match p with
-    | XI p0 -> op0 a (iter_op op0 p0 (op0 a a))
-    | XO p0 -> iter_op op0 p0 (op0 a a)
-    | XH -> a
-
-  (** val to_nat : positive -> nat **)
-
-  let to_nat x =
-    iter_op Coq__1.add x (S O)
-
   (** val of_succ_nat : nat -> positive **)
 
   let rec of_succ_nat = function
@@ -483,20 +450,6 @@ module Z =
   | Zpos _ -> Zpos XH
   | Zneg _ -> Zneg XH
 
-  (** val leb : z -> z -> bool **)
-
-  let leb x y =
-    match compare x y with
-    | Gt -> false
-    | _ -> true
-
-  (** val ltb : z -> z -> bool **)
-
-  let ltb x y =
-    match compare x y with
-    | Lt -> true
-    | _ -> false
-
   (** val eqb : z -> z -> bool **)
 
   let eqb x y =
@@ -517,12 +470,6 @@ module Z =
   | Zneg p -> Zpos p
   | x -> x
 
-  (** val to_nat : z -> nat **)
-
-  let to_nat = function
-  | Zpos p -> Coq_Pos.to_nat p
-  | _ -> O
-
   (** val of_nat : nat -> z **)
 
   let of_nat = function
@@ -534,53 +481,6 @@ module Z =
   let to_pos = function
   | Zpos p -> p
   | _ -> XH
-
-  (** val pos_div_eucl : positive -> z -> z * z **)
-
-  let rec pos_div_eucl a b =
-    match a with
-    | XI a' ->
-      let (q0, r) = pos_div_eucl a' b in
-      let r' = add (mul (Zpos (XO XH)) r) (Zpos XH) in
-      if ltb r' b
-      then ((mul (Zpos (XO XH)) q0), r')
-      else ((add (mul (Zpos (XO XH)) q0) (Zpos XH)), (sub r' b))
-    | XO a' ->
-      let (q0, r) = pos_div_eucl a' b in
-      let r' = mul (Zpos (XO XH)) r in
-      if ltb r' b
-      then ((mul (Zpos (XO XH)) q0), r')
-      else ((add (mul (Zpos (XO XH)) q0) (Zpos XH)), (sub r' b))
-    | XH -> if leb (Zpos (XO XH)) b then (Z0, (Zpos XH)) else ((Zpos XH), Z0)
-
-  (** val div_eucl : z -> z -> z * z **)
-
-  let div_eucl a b =
-    match a with
-    | Z0 -> (Z0, Z0)
-    | Zpos a' ->
-      (match b with
-       | Z0 -> (Z0, a)
-       | Zpos _ -> pos_div_eucl a' b
-       | Zneg b' ->
-         let (q0, r) = pos_div_eucl a' (Zpos b') in
-         (match r with
-          | Z0 -> ((opp q0), Z0)
-          | _ -> ((opp (add q0 (Zpos XH))), (add b r))))
-    | Zneg a' ->
-      (match b with
-       | Z0 -> (Z0, a)
-       | Zpos _ ->
-         let (q0, r) = pos_div_eucl a' b in
-         (match r with
-          | Z0 -> ((opp q0), Z0)
-          | _ -> ((opp (add q0 (Zpos XH))), (sub b r)))
-       | Zneg b' -> let (q0, r) = pos_div_eucl a' (Zpos b') in (q0, (opp r)))
-
-  (** val div : z -> z -> z **)
-
-  let div a b =
-    let (q0, _) = div_eucl a b in q0
 
   (** val ggcd : z -> z -> z * (z * z) **)
 
@@ -696,24 +596,6 @@ let rec combine l l' =
     (match l' with
      | [] -> []
      | y :: tl' -> (x, y) :: (combine tl tl'))
-
-(** val firstn : nat -> 'a1 list -> 'a1 list **)
-
-let rec firstn n0 l =
-  match n0 with
-  | O -> []
-  | S n1 -> (match l with
-             | [] -> []
-             | a :: l0 -> a :: (firstn n1 l0))
-
-(** val skipn : nat -> 'a1 list -> 'a1 list **)
-
-let rec skipn n0 l =
-  match n0 with
-  | O -> l
-  | S n1 -> (match l with
-             | [] -> []
-             | _ :: l0 -> skipn n1 l0)
 
 (** val seq : nat -> nat -> nat list **)
 
@@ -838,116 +720,6 @@ let sumQ l =
 
 let qnat n0 =
   inject_Z (Z.of_nat n0)
-
-type key = n list
-
-type 'a samp =
-| Ret of 'a
-| Fail of err
-| Expo of q * (q -> 'a samp)
-| Flip of q * 'a samp * 'a samp
-| Casc of q list * (nat -> 'a samp)
-| Choose of bool * (key * q) list * (key -> 'a samp)
-| Unif of key list * (key -> 'a samp)
-| Sample of key list * nat * (key list -> 'a samp)
-
-type call =
-| CExpo of q
-| CFlip of q
-| CCasc of q list
-| CPick of key list
-| CAcc of q
-| CSample of key list * nat
-
-(** val rank : q -> nat **)
-
-let rank d =
-  Z.to_nat (Z.div d.qnum (Zpos d.qden))
-
-(** val casc_index : q list -> q -> nat -> nat **)
-
-let rec casc_index ps d i =
-  match ps with
-  | [] -> Nat.pred i
-  | p :: ps' ->
-    if qltb (qminus d p) { qnum = Z0; qden = XH }
-    then i
-    else casc_index ps' (qminus d p) (S i)
-
-(** val choose_exec :
-    bool -> (key * q) list -> q list -> call list -> (key result * call
-    list) * q list **)
-
-let rec choose_exec weighted0 cands ds tr =
-  match cands with
-  | [] -> (((Err IndexErr), ((CPick []) :: tr)), ds)
-  | _ :: _ ->
-    (match ds with
-     | [] -> (((Err OutOfDraws), tr), [])
-     | r :: ds1 ->
-       (match nth_error cands (rank r) with
-        | Some p ->
-          let (c, w) = p in
-          let tr1 = (CPick (map fst cands)) :: tr in
-          if weighted0
-          then (match ds1 with
-                | [] -> (((Err OutOfDraws), tr1), [])
-                | _ :: ds2 ->
-                  if qltb { qnum = Z0; qden = XH } w
-                  then (((Ok c), ((CAcc w) :: tr1)), ds2)
-                  else choose_exec weighted0 cands ds2 ((CAcc w) :: tr1))
-          else (((Ok c), tr1), ds1)
-        | None -> (((Err OutOfDraws), tr), ds1)))
-
-(** val rotate : nat -> 'a1 list -> 'a1 list **)
-
-let rotate n0 l =
-  app (skipn n0 l) (firstn n0 l)
-
-(** val exec : 'a1 samp -> q list -> call list -> 'a1 result * call list **)
-
-let rec exec m ds tr =
-  match m with
-  | Ret a -> ((Ok a), (rev tr))
-  | Fail e -> ((Err e), (rev tr))
-  | Expo (r, k) ->
-    if qeqb r { qnum = Z0; qden = XH }
-    then ((Err ZeroDivision), (rev ((CExpo r) :: tr)))
-    else (match ds with
-          | [] -> ((Err OutOfDraws), (rev tr))
-          | d :: ds' -> exec (k d) ds' ((CExpo r) :: tr))
-  | Flip (p, kt, kf) ->
-    (match ds with
-     | [] -> ((Err OutOfDraws), (rev tr))
-     | d :: ds' -> exec (if qltb d p then kt else kf) ds' ((CFlip p) :: tr))
-  | Casc (ps, k) ->
-    (match ds with
-     | [] -> ((Err OutOfDraws), (rev tr))
-     | d :: ds' -> exec (k (casc_index ps d O)) ds' ((CCasc ps) :: tr))
-  | Choose (w, c, k) ->
-    let (p, ds') = choose_exec w c ds tr in
-    let (r, tr') = p in
-    (match r with
-     | Ok x -> exec (k x) ds' tr'
-     | Err e -> ((Err e), (rev tr')))
-  | Unif (c, k) ->
-    (match c with
-     | [] -> ((Err IndexErr), (rev ((CPick []) :: tr)))
-     | _ :: _ ->
-       (match ds with
-        | [] -> ((Err OutOfDraws), (rev tr))
-        | d :: ds' ->
-          (match nth_error c (rank d) with
-           | Some x -> exec (k x) ds' ((CPick c) :: tr)
-           | None -> ((Err OutOfDraws), (rev tr)))))
-  | Sample (pop, n0, k) ->
-    if Nat.ltb (length pop) n0
-    then ((Err ValueErr), (rev ((CSample (pop, n0)) :: tr)))
-    else (match ds with
-          | [] -> ((Err OutOfDraws), (rev tr))
-          | d :: ds' ->
-            exec (k (firstn n0 (rotate (rank d) pop))) ds' ((CSample (pop,
-              n0)) :: tr))
 
 (** val fupd :
     ('a1 -> 'a1 -> bool) -> ('a1 -> 'a2) -> 'a1 -> 'a2 -> 'a1 -> 'a2 **)
